@@ -69,4 +69,39 @@ theorem fix32u (v : Int) : shr v 0 = toUint32 v := by
   have h0 : shiftCount 0 = 0 := shiftCount_lit 0 (by omega)
   unfold shr; rw [h0]; simp
 
+theorem toInt32_emod (v : Int) : toInt32 v % 4294967296 = v % 4294967296 := by
+  unfold toInt32; split <;> omega
+
+theorem toInt32_congr {a b : Int} (h : a % 4294967296 = b % 4294967296) : toInt32 a = toInt32 b := by
+  unfold toInt32; rw [h]
+
+/-- `Math.imul` is the wrapped exact product -/
+theorem imul_eq (x y : Int) : imul x y = toInt32 (x * y) := by
+  unfold imul; apply toInt32_congr
+  rw [Int.mul_emod, toInt32_emod, toInt32_emod, ← Int.mul_emod]
+
+theorem mul_toInt (x y : Int) : (GV.JSInt.mul x y).toInt = x * y := by
+  unfold GV.JSInt.mul
+  split
+  · next h => simp only [JSNum.toInt]; omega
+  · rfl
+
+/-- |x tdiv y| ≤ |x|, as two linear facts for `omega` -/
+theorem tdiv_bounds (x y : Int) : -(x.natAbs : Int) ≤ x.tdiv y ∧ x.tdiv y ≤ x.natAbs := by
+  have := Int.natAbs_tdiv_le_natAbs x y
+  omega
+
+/-- the quotient reaches |x| only for a divisor ±1 (or x = 0) -/
+theorem tdiv_natAbs_eq (x y : Int) (h : (x.tdiv y).natAbs = x.natAbs) (hx : x ≠ 0) : y = 1 ∨ y = -1 := by
+  rw [Int.natAbs_tdiv] at h
+  have h' : x.natAbs / y.natAbs = x.natAbs := h
+  have hpos : 0 < x.natAbs := by omega
+  by_cases h2 : 2 ≤ y.natAbs
+  · have := Nat.div_lt_self hpos (by omega : 1 < y.natAbs)
+    omega
+  · have : y.natAbs = 0 ∨ y.natAbs = 1 := by omega
+    rcases this with h0 | h1
+    · rw [h0, Nat.div_zero] at h'; omega
+    · omega
+
 end GV.Proofs.Num
